@@ -7,6 +7,7 @@
 // usage: C19_replay <ir|fr|ip|fp> <i64|f64|i32|str> <min> <minLE 0|1> <maxLE 0|1> <max> [<valLE 0|1>] <x1> [<x2>]
 //   (numbers: integers in decimal, doubles in any strtod syntax incl. hex floats, nan, inf)
 #include <nano/parameter.h>
+#include <cerrno>
 #include <cmath>
 #include <cstdio>
 #include <cstdlib>
@@ -55,7 +56,20 @@ int main(int argc, char** argv)
     const char* sx2 = pair ? argv[a++] : sx1;
     const double x1 = std::strtod(sx1, nullptr), x2 = std::strtod(sx2, nullptr);
     const int64_t ix1 = std::strtoll(sx1, nullptr, 10), ix2 = std::strtoll(sx2, nullptr, 10);
-    const bool    xint = tv != "f64";   // the assigned number is an integer (exact in ix*), else a double (x*)
+    // the assigned number is an integer (exact in ix*), else a double (x*); a string denotes the number the parameter's kind
+    // parses from it (base-10 integer prefix for integer parameters: std::stoll, a floating-point literal otherwise: std::stod)
+    const bool xint = tv == "i64" || tv == "i32" || (tv == "str" && integer);
+    bool       unparsable = false;
+    if (tv == "str")
+    {
+        for (const char* sx : {sx1, sx2})
+        {
+            char* end = nullptr;
+            errno     = 0;
+            if (integer) { (void)std::strtoll(sx, &end, 10); } else { (void)std::strtod(sx, &end); }
+            unparsable = unparsable || end == sx || errno == ERANGE;
+        }
+    }
 
     // a valid initial value inside the domain (the constructor itself validates): try a few candidates
     parameter_t p;
@@ -147,6 +161,7 @@ int main(int argc, char** argv)
             readback = now == std::make_tuple(c1, c2);
         }
     }
+    if (unparsable) accept = false;   // std::stoll / std::stod throw: nothing may change
     const bool ok = !undefined && (accept ? (!thrown && readback) : (thrown && same));
     std::printf("{\"kind\": \"%s\", \"assigned\": \"%s%s%s\", \"conversion_undefined\": %s, \"model_accepts\": %s, \"thrown\": %s, "
                 "\"previous_value_kept\": %s, \"read_back_is_converted_value\": %s, \"ok\": %s}\n",
